@@ -143,6 +143,9 @@ func buildOverlay(ctx *context, instr bool) string {
 		if !strings.HasSuffix(path, ".go") && !strings.HasSuffix(path, ".s") {
 			return nil
 		}
+		if ex := os.Getenv("VERIF_EXCLUDE"); ex != "" && strings.Contains(filepath.Base(path), ex) {
+			return nil // development aid: leave another author's unfinished harness file out of the build
+		}
 		rel, _ := filepath.Rel(root, path)
 		replace[filepath.Join(ctx.repo, ctx.p.module, rel)] = path
 		return nil
